@@ -123,6 +123,13 @@ class Interp:
         for src in ((c.globals if c is not None else {}), self.pack.globals):
             if name in src:
                 v = src[name]
+                fn = getattr(module, "funcs", {}).get(name) if module is not None else None
+                if fn is not None:
+                    for d in getattr(fn, "decorator_list", []):
+                        base = ast.unparse(d).split("(")[0]
+                        if base not in TRANSPARENT_DECORATORS:
+                            # the trusted stand-in describes the undecorated function: a decorator (e.g. a cache) voids that assumption
+                            raise Unsupported("assumed model of %s does not account for its decorator @%s" % (name, ast.unparse(d)))
                 if isinstance(v, Kind) or callable(v):
                     g = self.ctx.ghost
                     if "global:" + name not in g:
@@ -718,6 +725,12 @@ class Interp:
             if r is not NotImplemented:
                 return r
         # logging-like calls and exception constructors: arguments are not evaluated (DESIGN 3.3)
+        if text in getattr(self.pack, "raising_log_calls", ()):
+            # e.g. warnings.warn in a process started with -W error: the call may raise the warning (an Exception) instead of printing it
+            self.ctx.events.append(("log-call", text))
+            if self.ctx.choose(2, "%s-raises@%d" % (text, node.lineno)) == 1:
+                self.raise_("UserWarning")
+            return None
         if text in LOG_CALLS or text in self.pack.log_calls:
             return None
         h = self.lookup_call_override(node.func, env)
@@ -914,6 +927,34 @@ class Interp:
             return cur.kind.fresh(self.ctx, "stale_" + fnode.name)
         self.unsupported(node, "cached function %s reads %s: a stale result of this type is not modelled" % (fnode.name, reads))
 
+    def _is_caching(self, fnode):
+        return any(ast.unparse(d).split("(")[0] in CACHING_DECORATORS for d in getattr(fnode, "decorator_list", []))
+
+    def _impure(self, fnode, module):
+        """The body calls into an imported module / opens files (reads the outside world) or reads module state that is not a constant."""
+        local = {a.arg for a in fnode.args.args + fnode.args.kwonlyargs + fnode.args.posonlyargs}
+        for n in ast.walk(fnode):
+            if isinstance(n, ast.Name) and isinstance(n.ctx, ast.Store):
+                local.add(n.id)
+        mods = set()
+        for st in getattr(module, "tree", ast.Module(body=[], type_ignores=[])).body:
+            if isinstance(st, ast.Import):
+                mods.update((al.asname or al.name.split(".")[0]) for al in st.names)
+        for n in ast.walk(fnode):
+            if isinstance(n, ast.Call):
+                f = n.func
+                if isinstance(f, ast.Name) and f.id == "open":
+                    return True
+                base = f
+                while isinstance(base, ast.Attribute):
+                    base = base.value
+                if isinstance(f, ast.Attribute) and isinstance(base, ast.Name) and base.id in mods and base.id not in local:
+                    return True
+            if isinstance(n, ast.Name) and isinstance(n.ctx, ast.Load) and n.id not in local and n.id not in BUILTIN_NAMES and n.id not in mods \
+                    and self._may_be_mutable_global(module, n.id):
+                return True
+        return False
+
     def _may_be_mutable_global(self, module, name, depth=0):
         """False for module-level functions, classes, imported modules and immutable constants (imports from sibling modules are
         followed); True when the name is bound to anything else (tables, registries, objects) or cannot be resolved."""
@@ -1001,8 +1042,15 @@ class Interp:
                     result = keep[self.ctx.choose(len(keep), "result:%s" % c.name)]
                 env.extra["result"] = result
                 self.ctx.ghost["ret_" + c.name] = result
-                for nm, s in c.ensures.items():
-                    self.ctx.assume(ops.truth(self.spec(s, env)))
+                stale = False
+                if self._is_caching(fnode) and self._impure(fnode, mod) and self.ctx.choose(2, "cached-call:%s" % c.name) == 1:
+                    # functools.lru_cache / cache on a function that looks at the outside world: this call may return what an EARLIER
+                    # call computed, so its postcondition speaks about an earlier state, not about this one
+                    stale = True
+                    self.ctx.events.append(("stale-cached-result", c.name))
+                if not stale:
+                    for nm, s in c.ensures.items():
+                        self.ctx.assume(ops.truth(self.spec(s, env)))
             else:
                 for nm, s in c.exsures[ename].items():
                     self.ctx.assume(ops.truth(self.spec(s, env)))
@@ -1219,6 +1267,10 @@ class Interp:
 
     def s_Import(self, node, env):
         for a in node.names:
+            h = self.pack.models.get("import:" + a.name)
+            if h is not None:
+                env.assign(a.asname or a.name.split(".")[0], h(self))  # may raise ImportError in the model
+                continue
             env.assign(a.asname or a.name.split(".")[0], ModuleRef(a.name if a.asname else a.name.split(".")[0]))
 
     def s_ImportFrom(self, node, env):
@@ -1657,6 +1709,8 @@ class Interp:
                     raise PathEnd()  # beyond the stated bound
                 self.exec_block(node.orelse, env)
                 return
+        if lc is not None and isinstance(it, PyList) and not it.items:
+            lc = None  # a concretely empty list: the loop does nothing on this path, its contract has nothing to say
         if lc is None:
             items = self.pack.for_items(self, it, node)
             for x in items:
